@@ -235,7 +235,7 @@ def dispatch_rules(ctx):
 
 def extractor_rules(ctx):
     repo = ctx.repo
-    r = ctx.rule("R16.4", "strain/stress extractor: components in Kelvin order with the shear entries unscaled before use; von Mises == sqrt(3/2 s:s), 2-D form == 3-D form at zz=yz=xz=0", min_instances=10)
+    r = ctx.rule("R16.4", "strain/stress extractor: components and full-tensor results in Kelvin order with the shear entries unscaled before use; von Mises == sqrt(3/2 s:s), 2-D form == 3-D form at zz=yz=xz=0", min_instances=18)
     mod = repo.module(MU)
     f = mod.functions["__Result_in_Strain_or_Stress_field"]
     repo.consulted.add(f.file)
@@ -287,6 +287,32 @@ def extractor_rules(ctx):
                     r.ok(f"dim {dim} von Mises^2 == 3/2 s:s" + (" with zz=yz=xz=0" if dim == 2 else ""))
                 else:
                     r.fail(f.qualname, f"{dim}:vm", f.file, f.lineno, "__Result_in_Strain_or_Stress_field", f"dim {dim}: the expression under the square root is {got!r}, expected 3/2 s:s = {want!r}")
+        # the full-tensor results: every component of the returned array is the unscaled tensor component, so that
+        # Result("Sxy") == Result("Stress")[:, k] and Svm is the von Mises norm of Result("Stress")
+        for full in ("Strain", "Stress", "Green-Lagrange", "Piola-Kirchhoff"):
+            r.instance(fn=f.qualname)
+            I = Interp(repo)
+            I.call_hook = hook
+            s = {c: Poly.var(f"s{c}") for c in names}
+            kel = [s[c] * (s2 if c[0] != c[1] else 1) for c in names]
+            field = XFe((1, 1, len(kel)), kel)
+            try:
+                val = I.call_function(f, [field, full, s2])
+            except XRaise as e:
+                if "not implemented" in str(e).lower() or "error" in str(e).lower():
+                    r.ok(f"dim {dim} '{full}': not offered")
+                    continue
+                r.fail(f.qualname, f"{dim}:{full}", f.file, f.lineno, "__Result_in_Strain_or_Stress_field", f"dim {dim}, '{full}': {e}")
+                continue
+            except Uninterpretable as e:
+                r.fail(f.qualname, f"{dim}:{full}", f.file, f.lineno, "__Result_in_Strain_or_Stress_field", f"dim {dim}, '{full}': {e}")
+                continue
+            arr = XArray.from_nested(val) if not isinstance(val, XArray) else val
+            flat = list(arr.data)
+            if len(flat) == len(names) and all(is_zero(flat[k] - s[c]) for k, c in enumerate(names)):
+                r.ok(f"dim {dim} '{full}' -> the unscaled tensor components in Kelvin order")
+            else:
+                r.fail(f.qualname, f"{dim}:{full}", f.file, f.lineno, "__Result_in_Strain_or_Stress_field", f"dim {dim}: the tensor result '{full}' returns {flat!r}, expected the unscaled components {[s[c] for c in names]!r}: the shear entries keep the Kelvin-Mandel factor, so Result('S..') differs from the corresponding column of Result('{full}') and Svm is not the von Mises norm of it")
 
 
 def field_e_rule(ctx):
@@ -442,6 +468,11 @@ def energy_rule(ctx):
 
 def run(ctx):
     from ..shared import group_loop_rule as _group_loop_rule
+    from . import c14 as _c14
+
+    # 'the reported deformation energy equals one half of u'Ku' for the state the simulation holds: the memoised
+    # stiffness of a staggered simulation is invalidated whenever the other field is replaced
+    _c14.staggered_flags_rule(ctx, ctx.repo.cls("EasyFEA.Simulations._simu._Simu"))
 
     _group_loop_rule(ctx, "R16.11", scope=lambda f, _s=("EasyFEA.Simulations", "EasyFEA.Models._utils", "EasyFEA.FEM._mesh"): f.module.name.startswith(_s), min_instances=10)
     ctx.level = "other"
